@@ -794,7 +794,7 @@ pub fn c04(ctx: &Ctx) -> PropResult {
         stats,
         rule: "random histories (length <= 12, thorough 30) over variables a, b (lists), c (string), d (alias): literal, assignment between variables, index read / write with 14 index values (-1, 0, 0.5, 1, 1.9, 2, LENGTH, LENGTH+0.5, LENGTH+1, LENGTH+2, NaN, inf, string, NULL), APPEND, INSERT, REMOVE, LENGTH, +, passing to a procedure that mutates then reassigns its parameter, nesting in a list, aliasing; all variables displayed after every step; plus every index value on a list and a non-ASCII string for read / write / INSERT / REMOVE; non-trivial = ended normally or with a runtime error; lists handed back by procedures (the parameter, an element, a local, through a second procedure, from a loop, a copy) changed through the result and through the original; FOR EACH while the body changes the list at the current, an earlier or a later position (index write, INSERT, REMOVE, APPEND, by name / alias, every ending); the operand-order family; statements whose operands change the length of the list they address; list + over 13 x 13 kinds of operand expression; the same list for several parameters; lists that come out of library calls which do not build them (MAP_GET, MAP_INSERT's result, REMOVE's result, indexed elements) changed through the result and through the container; lists stored into lists whose contents equal theirs; lists that contain themselves, observed through LENGTH and element reads only; self-containing lists held by others whose variable is re-bound".into(),
         exhaustive: false,
-        notes: vec![],
+        notes: vec!["round 16: l[i] <- v over a slot holding an equal-looking other value (another list of the same contents, the other zero), at depth 1 and 2 and through a procedure".into()],
     }
 }
 
@@ -1112,6 +1112,6 @@ pub fn c05(ctx: &Ctx) -> PropResult {
         stats,
         rule: format!("{} expression trees: every ordered pair of the 13 binary operators in both shapes, every binary operator with unary -, NOT, assignment and indexing at each operand (thorough: every triple in all five shapes), random trees with 2-8 operators incl. calls, assignment and indexing; each rendered with only the required parentheses and fully parenthesised, run under {} valuations (distinct primes, zeros for errors, mixed kinds) with a probe procedure at every leaf so that order, once-ness and short-circuiting show in the output; implementation-only oracle: both renderings behave identically (output, end class, error kind); the minimal rendering is also compared with the model; chains of postfix operators (indexing of an indexing or of a call result, two and three deep, under every binary and unary operator, as assignment target) with valuations failing at the first, second or third step; every triple of operators in the balanced shape (a . b) . (c . d); chains of 8 .. 70 operands plain / fully parenthesised / with doubled parentheses; the minimal text without any blank the lexical grammar does not need; number literals as operands after every kind of left operand; literal-only operands incl. zero divisors; required-parentheses-removed texts as a strided sample over all trees plus every tree with an assignment; assignments as index keys, call arguments and operands on both sides of every operator; expressions that start with a parenthesis and continue after it at twelve expression positions; bare variables and literals as operands of every pair of operators in both shapes; an index directly after every kind of literal", trees.len(), per_tree),
         exhaustive: false,
-        notes: vec![],
+        notes: vec!["round 16: an assignment whose value is an assignment, nine operand shapes, plain against parenthesised".into()],
     }
 }
